@@ -798,17 +798,19 @@ func (s *state) match(route, verb string) (*method, params, error) {
 // ServeHTTP implements http.Handler.
 // It supports both gRPC and HTTP requests.
 func (m *Mux) ServeHTTP(w http.ResponseWriter, r *http.Request) {
-	if r.ProtoMajor == 2 && strings.HasPrefix(
-		r.Header.Get("Content-Type"), "application/grpc",
-	) {
-		m.serveGRPC(w, r)
-		return
-	}
-
+	// gRPC-Web is checked first: over HTTP/2 its content-type also has the
+	// "application/grpc" prefix.
 	if strings.HasPrefix(
 		r.Header.Get("Content-Type"), "application/grpc-web",
 	) {
 		m.serveGRPCWeb(w, r)
+		return
+	}
+
+	if r.ProtoMajor == 2 && strings.HasPrefix(
+		r.Header.Get("Content-Type"), "application/grpc",
+	) {
+		m.serveGRPC(w, r)
 		return
 	}
 
